@@ -238,48 +238,64 @@ section Xlsx
 open XlsxCells XlsxSheet XlsxFormula
 
 /-- **formula_positions_xlsx.** For every well-formed logical sheet (C01's `XlsxSheet.Sheet`: rows and columns
-    increasing, inside the grid) and EVERY layout — `r` written or omitted on any row and any cell wherever the
-    format allows it, either letter case, element prefix or not, any or no `<dimension>` — `next_formula` returns
+    increasing, inside the grid) and EVERY legal layout (C01 `Layout.Legal`) — `r` written or omitted on any row and any
+    cell wherever the format allows it, either letter case, prefixes per element, attribute order and inert extra
+    attributes, text in pieces, comments / white space between elements, foreign siblings, any or no `<dimension>` — `next_formula` returns
     exactly one entry per stored cell, in row-major order, at that cell's position, holding the text of its `<f>`
     child verbatim (`""` when it has none). -/
-theorem formula_positions_xlsx (s : Sheet) (lay : Layout) (hwf : s.WF) (hdim : lay.DimOk) :
+theorem formula_positions_xlsx (s : Sheet) (lay : Layout) (hl : lay.Legal) (hwf : s.WF) :
     readFormulas (renderSheet s lay) = .ok (formulasOf s) ∧
     (formulasOf s).map (fun c => (c.1, c.2.1)) = s.flatMap (fun row => row.2.map fun cell => (row.1, cell.1)) := by
-  refine ⟨readFormulas_render s lay hwf hdim, ?_⟩
+  refine ⟨readFormulas_render s lay hl hwf, ?_⟩
   simp only [formulasOf, rowFormulas, List.map_flatMap, List.map_map]
   rfl
 
 /-- formulas are reported at the positions the value reader (`next_cell`, C01 `cursor_positions`) reports the same
     cells at: the two cursors agree on every encoded sheet -/
-theorem formula_cursor_agrees_with_values (cfg : Cfg) (s : Sheet) (lay : Layout) (hwf : s.WF)
-    (hok : s.ContentOk cfg) (hdim : lay.DimOk) :
+theorem formula_cursor_agrees_with_values (cfg : Cfg) (s : Sheet) (lay : Layout) (hl : lay.Legal) (hwf : s.WF)
+    (hok : s.ContentOk cfg) :
     ∃ dims cells fcells, readCells cfg (renderSheet s lay) = .ok (dims, cells) ∧
       readFormulas (renderSheet s lay) = .ok fcells ∧
       cells.map (fun c => (c.1, c.2.1)) = fcells.map (fun c => (c.1, c.2.1)) := by
-  refine ⟨_, _, _, readCells_render cfg s lay hwf hok hdim, readFormulas_render s lay hwf hdim, ?_⟩
+  refine ⟨_, _, _, readCells_render cfg s lay hl hwf hok, readFormulas_render s lay hl hwf, ?_⟩
   simp only [cellsOf, formulasOf, rowFormulas, List.map_flatMap, List.map_map]
   rfl
 
 /-- what `worksheet_formula` builds its range from does not depend on the layout: the stored cells that have a
     non-empty formula text (`Range::from_sparse` of them is the bounding rectangle with `""` elsewhere: C05) -/
-theorem worksheet_formula_layout_independent (s : Sheet) (lay lay' : Layout) (hwf : s.WF) (hdim : lay.DimOk)
-    (hdim' : lay'.DimOk) :
+theorem worksheet_formula_layout_independent (s : Sheet) (lay lay' : Layout) (hl : lay.Legal) (hl' : lay'.Legal)
+    (hwf : s.WF) :
     worksheetFormula (renderSheet s lay) = worksheetFormula (renderSheet s lay') ∧
     worksheetFormula (renderSheet s lay) = Range.fromSparse ((formulasOf s).filter fun c => c.2.2 ≠ []) := by
-  simp only [worksheetFormula, formulaCells, readFormulas_render s lay hwf hdim, readFormulas_render s lay' hwf hdim',
+  simp only [worksheetFormula, formulaCells, readFormulas_render s lay hl hwf, readFormulas_render s lay' hl' hwf,
     and_self]
+
+/-- the plainest layout (nothing optional written, one text piece, no extra markup) is legal -/
+def plainLayout : Layout :=
+  { pfx := false, rowPfx := fun _ => false, cellPfx := fun _ _ => false, dim := none,
+    rowExplicit := fun _ => false, cellExplicit := fun _ _ => false, cellLower := fun _ _ => false,
+    cellArrange := fun _ _ a => a, rowArrange := fun _ a => a, split := fun _ _ t => [t],
+    beforeDim := [], afterDim := [], after := [], gapRow := fun _ => [], gapCell := fun _ _ => [],
+    gapRowEnd := fun _ => [], gapEnd := [] }
+
+theorem plainLayout_legal : plainLayout.Legal where
+  dim := by intro d hd; simp [plainLayout] at hd
+  cellAttr := by intros; rfl
+  rowAttr := by intros; rfl
+  split := by intro r c t; simp [plainLayout]
+  head := ⟨by intro ev h; simp [plainLayout] at h, by intro ev h; simp [plainLayout] at h⟩
+  gaps := ⟨by intro r ev h; simp [plainLayout] at h, by intro r c ev h; simp [plainLayout] at h,
+    by intro r ev h; simp [plainLayout] at h, by intro ev h; simp [plainLayout] at h⟩
 
 /-- non-vacuity, and the shape that separates a correct cursor from a wrong one: two rows, the second without
     `r`, cells without `r`; the second formula is at column 0 of row 1, not after the first row's last column -/
 example :
     let s : Sheet := [(0, [(0, ⟨.blank, none, some [66, 49]⟩), (1, ⟨.num [49] false, none, none⟩)]),
                       (1, [(0, ⟨.blank, none, some [65, 49]⟩)])]
-    let lay : Layout := ⟨false, none, fun _ => false, fun _ _ => false, fun _ _ => false⟩
-    readFormulas (renderSheet s lay) = .ok [(0, 0, [66, 49]), (0, 1, []), (1, 0, [65, 49])] := by
-  intro s lay
+    readFormulas (renderSheet s plainLayout) = .ok [(0, 0, [66, 49]), (0, 1, []), (1, 0, [65, 49])] := by
+  intro s
   have hwf : s.WF := by simp [s, Sheet.WF, Increasing]
-  have hdim : lay.DimOk := by intro d hd; simp [lay] at hd
-  rw [(formula_positions_xlsx s lay hwf hdim).1]
+  rw [(formula_positions_xlsx s plainLayout plainLayout_legal hwf).1]
   rfl
 
 end Xlsx
